@@ -8,7 +8,7 @@ THEOREMS = ["SCP.C16." + t for t in """lowerEq_congr_left tokFieldCompare_case t
 infoEqTok_case matchesAt_case findLocation_case varKey_case untyped_skipped findMatch_offsets replaceRange_tokens""".split()] + \
     ["SCP.Lex.lex_render", "SCP.Lex.lex_spacing_irrelevant", "SCP.Lex.comment_irrelevant"]
 RULE = ("base = every evaluable line / short program of the shared generators (arithmetic, money, percent phrases, dates, durations, times with "
-        "zones, units, based numbers, unix, variables over 2-3 lines); rewritings: (1) 1-3 extra blanks at every existing blank, around "
+        "zones, units, based numbers, unix, magnitude suffix + currency word, variables over 2-3 lines, variables assigned twice); rewritings: (1) 1-3 extra blanks at every existing blank, around "
         "operator characters and at both ends; (2) an appended '# comment' from a hostile pool (month names, numbers, atoms, '=', currency "
         "symbols, zones, '#', words of the line); (3) lower / UPPER / Capitalised / rAnDoM case of every currency code, month name, zone name, "
         "connective keyword (to of on off as in into at is what) and variable name in the line; (4) blank-only and comment-only lines must "
@@ -110,8 +110,18 @@ def base_text(rng):
         a, b = rng.choice(alias_words()), rng.choice(alias_words())
         return rng.choice([f"{L.num(rng)} {a}", f"{L.num(rng)} usd to {a}", f"{L.num(rng)} {a} to {b}", f"{L.num(rng)} {a} + {L.num(rng)} {b}",
                            f"10% of {L.num(rng)} {a}"]), set()
+    if k < 0.18:
+        # magnitude suffix, then blanks, then a currency word: '2k usd', '1,5M eur to usd'
+        a, b = rng.choice(["usd", "eur", "try", "gbp", "jpy", rng.choice(alias_words())]), rng.choice(["usd", "eur", "try", "dkk"])
+        amt = f"{rng.choice([str(rng.randint(1, 900)), L.num(rng)])}{rng.choice('kKMGT')}"
+        return rng.choice([f"{amt} {a}", f"{amt} {a} to {b}", f"salary = {amt} {a}\nsalary / 12", f"{amt} {a} + 10%", f"{amt} {a} + {rng.randint(1, 99)} {a}"]), {"salary"}
     if k < 0.55:
         return L.value_line(rng), set()
+    if k < 0.65:
+        # the same variable assigned twice, then used: every occurrence gets its own letter case
+        n1 = rng.choice(L.NAMES + ["total", "çay", "über", "prix été", "цена"])
+        t = f"{n1} = {L.value_line(rng)}\n{n1} = {L.value_line(rng)}\n{n1}{rng.choice(['', ' + 0', ' * 2'])}"
+        return t, set(n1.split())
     names = rng.sample(L.NAMES + ["çay", "ölçü", "über", "prix été", "цена", "τιμή"], 2)
     n1, n2 = names
     t = f"{n1} = {L.value_line(rng)}\n{n2} = {n1}{rng.choice(['', ' * 2', ' + ' + n1])}\n{n2}{rng.choice(['', ' + 1', ' / 2'])}"
